@@ -48,7 +48,11 @@ impl Run {
         let data = serde_json::to_vec(self)?;
         file.write_all(&data)?;
         drop(file);
+        #[cfg(pnordahl_monorail_verif)]
+        crate::verif::point("ptr.after_tmp_write");
         fs::rename(&tmp_path, &self.path)?;
+        #[cfg(pnordahl_monorail_verif)]
+        crate::verif::point("ptr.after_rename");
         Ok(())
     }
 }
